@@ -23,6 +23,41 @@ RAW_FREE = {'coap_free_type': 1, 'free': 0, 'coap_free': 0}
 def run(run, P, creators):
     run.rule('R-HOLDER-LEAK')
     creators = set(creators) - RAW_ALLOC
+    from rules.r_shallow import frees_summary
+    FS = frees_summary(P)
+    DTOR = ('coap_delete_pdu', 'coap_delete_string', 'coap_delete_binary', 'coap_delete_bin_const', 'coap_delete_str_const', 'coap_delete_optlist',
+            'coap_delete_cache_key', 'coap_free_type', 'free', 'coap_delete_node_lkd')
+
+    def consumes(fn, i):
+        """does the callee take the object over (free it / may keep it)?  library callees that neither free the parameter nor
+        store it are borrowers; anything outside the library may keep it"""
+        if fn in DTOR:
+            return True
+        if fn is None or not P.has(fn):
+            return fn not in ('memcpy', 'memset', 'memcmp', 'memmove', 'strlen')
+        if '' in FS.get((fn, i), ()):
+            return True
+        g = P.func(fn)
+        if i >= len(g['params']):
+            return True
+        pv = 'v%d' % g['params'][i]['id']
+        for b, ev in P.events(g):
+            t = ev['e']
+            if t.get('k') == 'asg' and t.get('op') == '=' and ap(t['r']) == pv and ap(t['l']) and ('>' in ap(t['l']) or '.' in ap(t['l'])):
+                return True      # stored somewhere
+            if t.get('k') == 'ret' and 'e' in t and ap(t['e']) == pv:
+                return True
+            if t.get('k') == 'call' and t.get('fn') != fn:
+                for j, x in enumerate(t.get('a', [])):
+                    if ap(x) == pv and consumes.depth < 3:
+                        consumes.depth += 1
+                        try:
+                            if consumes(t.get('fn'), j):
+                                return True
+                        finally:
+                            consumes.depth -= 1
+        return False
+    consumes.depth = 0
     nh = 0
     for f in sorted(P.lib_funcs(), key=lambda f: f['name']):
         name = f['name']
@@ -136,7 +171,7 @@ def run(run, P, creators):
                         elif fn not in ('memset', 'memcpy', 'memcmp', 'coap_log_impl'):
                             e = e or env.copy()
                             drop_holder(e, a)
-                    elif holder_of(a) and (holder_of(a), a) in own:
+                    elif holder_of(a) and (holder_of(a), a) in own and consumes(fn, i):
                         e = e or env.copy()
                         e.ts['own'] = e.ts['own'] - {(holder_of(a), a)}
                 if e is not None:
